@@ -39,6 +39,9 @@ type inst struct {
 	orders [][]string // candidate LRU orders (front = next victim)
 	cap    int
 	filled int // big configurations: how many names the Fill operations have inserted so far
+	// settings the store was started with (configuration at start-up), and what the start-up found wrong
+	admit, serve bool
+	pending      []report.Violation
 	// twin configurations: the store of a second forwarding thread. The capacity is one
 	// process-wide setting that applies to each thread's store separately.
 	alt *inst
@@ -49,6 +52,7 @@ type sys struct {
 	getters []string
 	cap0    int
 	twin    bool
+	yaml    bool // the start-up configuration arrives as the TEXT of a configuration file
 	ops     []explore.Op
 	do      map[string]func(in *inst) []report.Violation
 }
@@ -84,7 +88,16 @@ func mkData(name string, fresh int, payload string) pkt {
 		d := time.Duration(fresh) * time.Millisecond
 		cfg.Freshness = &d
 	}
-	ed, err := spec.Spec{}.MakeData(nm(name), cfg, enc.Wire{[]byte(payload)}, sec.NewSha256Signer())
+	content := enc.Wire{[]byte(payload)}
+	if payload != "p" {
+		// the other version of a packet differs from the first in EVERY field a Data packet has
+		// besides its name: content (two buffers, longer), content type, final block id, signature
+		cfg.ContentType = utils.IdPtr(ndn.ContentTypeKey)
+		fb := enc.NewStringComponent(enc.TypeGenericNameComponent, "last-"+payload)
+		cfg.FinalBlockID = &fb
+		content = enc.Wire{[]byte(payload + payload), []byte("-second-version")}
+	}
+	ed, err := spec.Spec{}.MakeData(nm(name), cfg, content, sec.NewSha256Signer())
 	if err != nil {
 		panic(err)
 	}
@@ -95,6 +108,87 @@ func mkData(name string, fresh int, payload string) pkt {
 	}
 	pktCache[k] = pkt{p.Data, w}
 	return pktCache[k]
+}
+
+// digest writes out every field of a decoded Data packet (through the accessors the forwarder and
+// the applications use, plus the raw structure): two packets with equal digests are the same packet
+func digest(d *spec.Data) string {
+	var b strings.Builder
+	fmt.Fprintf(&b, "name=%s", d.Name())
+	if ct := d.ContentType(); ct != nil {
+		fmt.Fprintf(&b, " ctype=%d", *ct)
+	}
+	if f := d.Freshness(); f != nil {
+		fmt.Fprintf(&b, " fresh=%v", *f)
+	}
+	if fb := d.FinalBlockID(); fb != nil {
+		fmt.Fprintf(&b, " final=%s", fb.String())
+	}
+	fmt.Fprintf(&b, " metainfo=%v content=%x", d.MetaInfo != nil, d.Content().Join())
+	if sg := d.Signature(); sg != nil {
+		fmt.Fprintf(&b, " sig=%d key=%s nonce=%x value=%x", sg.SigType(), sg.KeyName(), sg.SigNonce(), sg.SigValue())
+		if t := sg.SigTime(); t != nil {
+			fmt.Fprintf(&b, " sigtime=%d", t.UnixNano())
+		}
+		if n := sg.SigSeqNum(); n != nil {
+			fmt.Fprintf(&b, " sigseq=%d", *n)
+		}
+	}
+	fmt.Fprintf(&b, " siginfo=%v sigvalue=%x", d.SignatureInfo != nil, d.SignatureValue.Join())
+	return b.String()
+}
+
+var digestCache = map[string]string{}
+
+// wireDigest = digest of the decoding of a packet's bytes (a private decoding of a private copy)
+func wireDigest(w []byte) string {
+	if s, ok := digestCache[string(w)]; ok {
+		return s
+	}
+	p, _, err := spec.ReadPacket(enc.NewBufferReader(append([]byte(nil), w...)))
+	s := "undecodable"
+	if err == nil && p.Data != nil {
+		s = digest(p.Data)
+	}
+	digestCache[string(w)] = s
+	return s
+}
+
+// scribble overwrites everything reachable from a decoded Data packet that its owner may overwrite:
+// a packet decoded from a buffer points into that buffer, and the owner of the buffer re-uses it
+func scribble(d *spec.Data, names bool) {
+	if os.Getenv("C07_NO_SCRIBBLE") != "" { // development aid: shows which clauses hold without it
+		return
+	}
+	fill := func(b []byte) {
+		for i := range b {
+			b[i] = 0x55
+		}
+	}
+	for _, c := range d.NameV {
+		if names {
+			fill(c.Val)
+		}
+	}
+	for _, b := range d.ContentV {
+		fill(b)
+	}
+	for _, b := range d.SignatureValue {
+		fill(b)
+	}
+	if d.MetaInfo != nil {
+		if d.MetaInfo.FreshnessPeriod != nil {
+			*d.MetaInfo.FreshnessPeriod = 77 * time.Hour
+		}
+		if d.MetaInfo.ContentType != nil {
+			*d.MetaInfo.ContentType = 99
+		}
+		if d.MetaInfo.FinalBlockID != nil {
+			fill(d.MetaInfo.FinalBlockID)
+		}
+		d.MetaInfo = nil
+	}
+	d.NameV, d.ContentV, d.SignatureInfo, d.SignatureValue = nil, nil, nil, nil
 }
 
 func touchAll(orders [][]string, name string) [][]string {
@@ -189,23 +283,98 @@ func newSys(names []string, cap0 int, caps []int, fresh []int, dts []int) *sys {
 	return s
 }
 
-var cfgDone bool
+// ---- start-up: every store of this harness is brought up the way the daemon brings it up ----
+//
+// The capacity (and the admit / serve switches) reach the store on two ways: the configuration the
+// daemon is started with (core.LoadConfig + table.Configure, fw/executor/yanfd.go NewYaNFD) and
+// the cs/config management command at run time. Both are part of every universe: New() and the
+// Boot operations go the first way - with the configuration given as a Config value or as the TEXT
+// of a configuration file decoded the way fw/executor/main.go decodes it -, Cap goes the second.
+
+type bootCfg struct {
+	cap          int
+	admit, serve bool
+	yaml         bool
+}
+
+var loggerDone bool
+var cfgCache = map[bootCfg]*core.Config{}
+
+func configFor(b bootCfg) *core.Config {
+	if c, ok := cfgCache[b]; ok {
+		return c
+	}
+	var c *core.Config
+	if b.yaml {
+		text := fmt.Sprintf("core:\n  log_level: FATAL\ntables:\n  content_store:\n    capacity: %d\n    admit: %v\n    serve: %v\n  dead_nonce_list:\n    lifetime: 6000\n", b.cap, b.admit, b.serve)
+		var err error
+		c, err = core.VerifConfigFromYaml(text)
+		if err != nil {
+			report.Fatal("C07", "configuration text rejected: "+err.Error()+"\n"+text)
+		}
+	} else {
+		c = core.DefaultConfig()
+		c.Core.LogLevel = "FATAL"
+		c.Tables.ContentStore.Capacity = uint16(b.cap)
+		c.Tables.ContentStore.Admit = b.admit
+		c.Tables.ContentStore.Serve = b.serve
+		c.Tables.DeadNonceList.Lifetime = 6000
+	}
+	cfgCache[b] = c
+	return c
+}
+
+// boot = daemon start-up as far as the tables are concerned; returns what it found wrong
+func boot(b bootCfg) (v []report.Violation) {
+	if b.cap > 65535 {
+		panic("configured capacities are 16-bit")
+	}
+	core.LoadConfig(configFor(b), "")
+	if !loggerDone {
+		loggerDone = true
+		core.InitializeLogger("")
+	}
+	table.Configure()
+	how := "a Config value"
+	if b.yaml {
+		how = "the text of a configuration file"
+	}
+	if got := table.CsCapacity(); got != b.cap {
+		v = append(v, report.Violation{Clause: "C07.cap", Key: "capacity configured at start-up is not the capacity in force",
+			Detail: fmt.Sprintf("started with tables.content_store.capacity = %d (given as %s; core.LoadConfig + table.Configure): CsCapacity() = %d", b.cap, how, got)})
+	}
+	return
+}
 
 func (s *sys) New() any {
 	vtime.Reset(false)
-	if !cfgDone {
-		cfgDone = true
-		c := core.DefaultConfig()
-		c.Core.LogLevel = "FATAL"
-		core.LoadConfig(c, "")
-		core.InitializeLogger("")
-	}
-	table.VerifConfigure(s.cap0, true, true, 6*time.Second)
-	in := &inst{cs: table.NewPitCS(func(table.PitEntry) {}), ref: map[string]*refEntry{}, orders: [][]string{{}}, cap: s.cap0}
+	pend := boot(bootCfg{s.cap0, true, true, s.yaml})
+	in := &inst{cs: table.NewPitCS(func(table.PitEntry) {}), ref: map[string]*refEntry{}, orders: [][]string{{}}, cap: s.cap0, admit: true, serve: true, pending: pend}
 	if s.twin {
-		in.alt = &inst{cs: table.NewPitCS(func(table.PitEntry) {}), ref: map[string]*refEntry{}, orders: [][]string{{}}, cap: s.cap0}
+		in.alt = &inst{cs: table.NewPitCS(func(table.PitEntry) {}), ref: map[string]*refEntry{}, orders: [][]string{{}}, cap: s.cap0, admit: true, serve: true}
 	}
 	return in
+}
+
+// addBoot adds restarts to the alphabet: the daemon is started again with a configuration that
+// gives capacity k (every k in caps) and the admit / serve switches (all four combinations), as a
+// Config value and as configuration text. A restart begins with an empty store.
+func (s *sys) addBoot(caps []int) {
+	for _, k := range caps {
+		for _, yaml := range []bool{false, true} {
+			for _, fl := range [][2]bool{{true, true}, {true, false}, {false, true}, {false, false}} {
+				b := bootCfg{k, fl[0], fl[1], yaml}
+				name := fmt.Sprintf("Boot(capacity=%d,admit=%v,serve=%v,yaml=%v)", k, b.admit, b.serve, yaml)
+				s.ops = append(s.ops, explore.Op{Name: name})
+				s.do[name] = func(in *inst) []report.Violation {
+					v := boot(b)
+					in.cs = table.NewPitCS(func(table.PitEntry) {})
+					in.ref, in.orders, in.cap, in.admit, in.serve = map[string]*refEntry{}, [][]string{{}}, b.cap, b.admit, b.serve
+					return append(v, s.sizeCheck(in)...)
+				}
+			}
+		}
+	}
 }
 
 // makeTwin turns the alphabet into one over TWO stores (two forwarding threads): every insert and
@@ -259,8 +428,29 @@ func (s *sys) put(in *inst, name string, fresh int, payload string) (v []report.
 	before := refNames(in)
 	// the caller owns the buffer it hands in and re-uses it afterwards (a face receive loop
 	// does): the store gets a private copy of the packet bytes, which is overwritten right after
+	// ... and the decoded packet handed in is the decoding of THAT buffer (it points into it), as in
+	// the forwarder's Data pipeline; it, too, belongs to the caller and is overwritten afterwards.
+	// The insertion is guarded the way the pipeline guards it (fw/fw/thread.go: IsCsAdmitting).
+	if !in.cs.IsCsAdmitting() {
+		if in.admit {
+			// nothing is cached, so nothing the property demands of cached packets can fail: the text
+			// leaves it open; the reference follows the store
+		}
+		return s.sizeCheck(in)
+	}
 	buf := append([]byte(nil), p.wire...)
-	in.cs.InsertData(p.data, buf)
+	dec, _, err := spec.ReadPacket(enc.NewBufferReader(buf))
+	if err != nil || dec.Data == nil {
+		panic(fmt.Sprint("cannot decode own packet: ", err))
+	}
+	// (the NAME is given its own memory: the name tree keeps referring to the components of the
+	// names it was given, and whether their memory may be re-used is the name tree's contract, not
+	// this property's - see the hand-off note; C07_SCRIBBLE_NAMES=1 tries it)
+	if os.Getenv("C07_SCRIBBLE_NAMES") == "" {
+		dec.Data.NameV = nm(name)
+	}
+	in.cs.InsertData(dec.Data, buf)
+	scribble(dec.Data, false)
 	for i := range buf {
 		buf[i] = 0xAA
 	}
@@ -395,6 +585,15 @@ func (s *sys) get(in *inst, name string, cbp, mbf bool) []report.Violation {
 func (s *sys) lookup(in *inst, name string, cbp, mbf bool) (v []report.Violation) {
 	now := vtime.Now()
 	it := &spec.Interest{NameV: nm(name), CanBePrefixV: cbp, MustBeFreshV: mbf}
+	// the lookup is guarded the way the Interest pipeline guards it (fw/fw/thread.go: IsCsServing)
+	if !in.cs.IsCsServing() {
+		if in.serve && !cbp {
+			if ref := in.ref[name]; ref != nil && (!mbf || now.Before(ref.staleAt)) {
+				v = append(v, report.Violation{Clause: "C07.find", Key: "store started with serve=true does not serve: cached fresh entry not found", Detail: fmt.Sprintf("IsCsServing()=false although the start-up configuration says serve: true; Get(%s,mbf=%v) cannot find the cached entry", name, mbf)})
+			}
+		}
+		return
+	}
 	e := in.cs.FindMatchingDataFromCS(it)
 	ref := in.ref[name]
 	if e == nil {
@@ -409,6 +608,16 @@ func (s *sys) lookup(in *inst, name string, cbp, mbf bool) (v []report.Violation
 	data, wire, err := e.Copy()
 	if err != nil || data == nil {
 		v = append(v, report.Violation{Clause: "C07.bytes", Key: "Copy fails", Detail: fmt.Sprint("CsEntry.Copy error: ", err)})
+		return
+	}
+	// Copy returns the packet twice: as bytes and decoded. The forwarder sends what Copy returns
+	// (packet.L3.Data = decoded, packet.Raw = bytes): the two must be the same packet in every
+	// field - name, content, MetaInfo, signature. (Decided first: the name of the returned packet,
+	// which the clauses below go by, is taken from the decoded form.)
+	got := digest(data)
+	if want := wireDigest(wire); got != want {
+		v = append(v, report.Violation{Clause: "C07.bytes", Key: "decoded Data returned by Copy is not the decoding of the bytes returned with it", Detail: fmt.Sprintf("Get(%s,cbp=%v,mbf=%v): Copy returned the decoded packet {%s} together with bytes that decode to {%s}", name, cbp, mbf, got, want)})
+		scribble(data, true)
 		return
 	}
 	gn := data.NameV.String()
@@ -427,8 +636,17 @@ func (s *sys) lookup(in *inst, name string, cbp, mbf bool) (v []report.Violation
 	if !bytes.Equal(wire, r.wire) {
 		v = append(v, report.Violation{Clause: "C07.bytes", Key: "bytes differ from last insert", Detail: fmt.Sprintf("Get(%s) returned bytes that differ from the packet last inserted under %s", name, gn)})
 	}
+	// ... and the decoded packet must be the packet most recently inserted under that name
+	if want := wireDigest(r.wire); got != want {
+		v = append(v, report.Violation{Clause: "C07.bytes", Key: "decoded Data returned by Copy is not the packet last inserted under that name", Detail: fmt.Sprintf("Get(%s,cbp=%v,mbf=%v): Copy returned the decoded packet {%s}; the packet last inserted under %s decodes to {%s}", name, cbp, mbf, got, gn, want)})
+	}
+	// the entry's own statement of when it goes stale: insertion (or refresh) + freshness period
+	if st := e.StaleTime(); !st.Equal(r.staleAt) {
+		v = append(v, report.Violation{Clause: "C07.fresh", Key: "entry reports a stale time other than last insertion + freshness period", Detail: fmt.Sprintf("Get(%s): StaleTime() is %v from now, last insertion + freshness period is %v from now", name, st.Sub(now), r.staleAt.Sub(now))})
+	}
 	// what Copy hands out belongs to the caller, who may change it (the next lookup must still
-	// return the inserted bytes)
+	// return the inserted packet): the bytes and everything reachable from the decoded packet
+	scribble(data, true)
 	for i := range wire {
 		wire[i] ^= 0xFF
 	}
@@ -450,7 +668,15 @@ func (s *sys) lookup(in *inst, name string, cbp, mbf bool) (v []report.Violation
 	return
 }
 
-func (s *sys) Apply(i any, op explore.Op) []report.Violation { return s.do[op.Name](i.(*inst)) }
+func (s *sys) Apply(i any, op explore.Op) []report.Violation {
+	in := i.(*inst)
+	v := s.do[op.Name](in)
+	if len(in.pending) > 0 { // what the start-up found wrong is reported with the first operation
+		v = append(in.pending, v...)
+		in.pending = nil
+	}
+	return v
+}
 
 func (s *sys) Canon(i any) string {
 	in := i.(*inst)
@@ -479,9 +705,14 @@ func canonOne(in *inst) string {
 		r := in.ref[n]
 		fmt.Fprintf(&b, "%s:%s:%v;", n, r.payload, rel(r.staleAt.Sub(now)))
 	}
-	fmt.Fprintf(&b, "cap=%d orders=%v", in.cap, dedupOrders(in.orders))
+	fmt.Fprintf(&b, "cap=%d/%d admit=%v/%v serve=%v/%v orders=%v", in.cap, table.CsCapacity(), in.admit, in.cs.IsCsAdmitting(), in.serve, in.cs.IsCsServing(), dedupOrders(in.orders))
 	d := table.VerifDumpPitCs(in.cs, now)
 	fmt.Fprintf(&b, "#n=%d dead=%v lru=%v loc=%d map=%d cnt=%d", d.Nodes, d.DeadNodes, d.LruOrder, d.LruLocations, d.CsMapSize, d.NCs)
+	// fields of the entries / of the replacement policy that the dump does not know (none on the
+	// tree this was written for): state added by a change must not be merged away
+	if h := table.VerifCsHidden(in.cs); h != "" {
+		fmt.Fprintf(&b, " hidden=%s", h)
+	}
 	for _, c := range d.Cs {
 		// the stored bytes are part of the state: two histories that end in the same reference
 		// contents may still hold different private buffers (e.g. a reused, longer buffer)
@@ -567,6 +798,35 @@ func build(cfg string) explore.System {
 		if twin {
 			s.makeTwin()
 		}
+		return s
+	case strings.HasPrefix(cfg, "boot"):
+		// the START-UP universe: n names, the daemon (re)started with every capacity 0..n in its
+		// configuration (Config value and configuration text; admit / serve switches in all four
+		// combinations), the capacity moved to every value 0..n through management in between,
+		// inserts, refreshes and exact hits. Runs to a fixpoint.
+		var n, c, y int
+		fmt.Sscanf(cfg, "boot n=%d cap=%d yaml=%d", &n, &c, &y)
+		all := []string{"/a", "/a/b", "/c", "/c/d"}
+		var caps []int
+		for k := 0; k <= n; k++ {
+			caps = append(caps, k)
+		}
+		s := newSys(all[:n], c, caps, []int{-1}, nil)
+		s.yaml = y == 1
+		var keep []explore.Op
+		for _, op := range s.ops {
+			switch {
+			case strings.HasPrefix(op.Name, "Put("):
+				keep = append(keep, op)
+			case strings.HasPrefix(op.Name, "Get(/,"), strings.HasPrefix(op.Name, "Get(/zz"):
+			case strings.HasPrefix(op.Name, "Get(") && strings.Contains(op.Name, "cbp=false,mbf=false"):
+				keep = append(keep, op)
+			case strings.HasPrefix(op.Name, "Cap(") && !strings.Contains(op.Name, "flags"):
+				keep = append(keep, op)
+			}
+		}
+		s.ops = keep
+		s.addBoot(caps)
 		return s
 	case strings.HasPrefix(cfg, "ambig"):
 		// names that differ only in where the component boundaries / which the component types are:
@@ -660,6 +920,9 @@ func main() {
 		Configs: func(th bool) []explore.Config {
 			var c []explore.Config
 			// LRU order universes first: cheap, run to a fixpoint, never starved by the budget
+			// start-up universes: every capacity 0..n as the configured one, restarts in between
+			c = append(c, explore.Config{Name: "boot n=2 cap=0 yaml=1", MaxDepth: 64, MaxDev: -1})
+			c = append(c, explore.Config{Name: "boot n=3 cap=0 yaml=0", MaxDepth: 64, MaxDev: -1})
 			c = append(c, explore.Config{Name: "order n=4 cap=3", MaxDepth: 64, MaxDev: -1})
 			c = append(c, explore.Config{Name: "order twin n=3 cap=2", MaxDepth: 64, MaxDev: -1})
 			c = append(c, explore.Config{Name: "order n=5 cap=4", MaxDepth: 64, MaxDev: -1})
@@ -726,10 +989,12 @@ func main() {
 			}
 			return 90 * time.Second
 		},
-		Rule: "BFS over histories of InsertData (4 names sharing prefixes x freshness {absent,0,1s} x 2 payloads), FindMatchingDataFromCS (every name, root, unknown name x CanBePrefix x MustBeFresh), SetCsCapacity(0..3) and clock steps on the real PitCsTree with the real CsLRU under a virtual clock; each transition checked against a reference store; eviction victims must be the head of a candidate LRU order. LRU-order universes (4-6 names, inserts, refreshes, exact hits, capacity moved to every value 0..n through management, optionally freshness + MustBeFresh + clock, optionally two stores under the one process-wide capacity) run to a FIXPOINT: every reachable (recency-ordered cached list x capacity) state with the store below, at and above its capacity. Large-capacity configurations (64/128/1024) combine fills with halving/doubling the capacity and hits/refreshes of the oldest entries. Every buffer handed to InsertData is overwritten after the call and every buffer returned by Copy is overwritten after it was compared",
+		Rule: "BFS over histories of InsertData (4 names sharing prefixes x freshness {absent,0,1s} x 2 payloads), FindMatchingDataFromCS (every name, root, unknown name x CanBePrefix x MustBeFresh), SetCsCapacity(0..3) and clock steps on the real PitCsTree with the real CsLRU under a virtual clock; each transition checked against a reference store; eviction victims must be the head of a candidate LRU order. LRU-order universes (4-6 names, inserts, refreshes, exact hits, capacity moved to every value 0..n through management, optionally freshness + MustBeFresh + clock, optionally two stores under the one process-wide capacity) run to a FIXPOINT: every reachable (recency-ordered cached list x capacity) state with the store below, at and above its capacity. Large-capacity configurations (64/128/1024) combine fills with halving/doubling the capacity and hits/refreshes of the oldest entries. Every buffer handed to InsertData is overwritten after the call and every buffer returned by Copy is overwritten after it was compared. Every store is STARTED the way the daemon starts it (core.LoadConfig + table.Configure with the capacity in the configuration, as a Config value or as configuration-file text decoded like fw/executor/main.go); start-up universes (boot) restart the daemon with every configured capacity 0..n x admit x serve between inserts, hits and cs/config commands, to a fixpoint. Inserts and lookups pass the forwarder's IsCsAdmitting / IsCsServing guards. Everything Copy returns is judged: the bytes, the decoded Data field by field (name, content, content type, freshness period, final block id, signature info and value) against the packet last inserted and against the bytes returned with it, and StaleTime(); the two versions of a packet differ in every one of those fields; the decoded packet handed to InsertData points into the caller's buffer and is overwritten after the call, the decoded packet returned by Copy is overwritten after it was compared. The canonical state includes a reflective fingerprint of every entry / policy field the dump does not know",
 		Assumptions: []string{
 			"the caller of InsertData may re-use its buffer after the call, and the caller of CsEntry.Copy owns the returned bytes (both are overwritten by the harness)",
-			"the configured capacity is process-wide and applies to each forwarding thread's store separately; an operation on one store leaves the other's cached set unchanged",
+			"the decoded packet returned by CsEntry.Copy belongs to the caller like the bytes do (the forwarder puts it into the packet it sends); the decoded packet handed to InsertData belongs to the caller and is overwritten after the call, except its name (the name tree refers to the components of inserted names)",
+		"a store whose start-up configuration says admit: false may or may not cache (the reference follows IsCsAdmitting); with serve: true a cached fresh packet must be found, i.e. IsCsServing must hold",
+		"the configured capacity is process-wide and applies to each forwarding thread's store separately; an operation on one store leaves the other's cached set unchanged",
 			"a CanBePrefix lookup answered by the entry whose name equals the Interest name may or may not refresh its recency (both accepted); other prefix hits do not, exact (non-CanBePrefix) hits, inserts and refreshes do",
 			"prefix lookups may return any matching fresh-enough entry, or none",
 			"accidental 64-bit hash collisions are outside the universe; structural collisions (names whose components concatenate to the same bytes) are inside it (universe ambig)",
